@@ -34,7 +34,17 @@ Decided:
          (``route.X``) and the binding application, never from the original unbound route (which only supplies what
          no binding changes: endpoint, render argument, methods): an application that was itself built by embedding
          is served under a further prefix exactly as it serves on its own, however often it is embedded; reads made
-         by analysed functions the constructor hands the route / application to count as reads of the constructor.
+         by analysed functions the constructor hands the route / application to count as reads of the constructor;
+         where such an attribute is *chosen* (the application's value or the route's: slash mode, error renderer) the
+         choice on the re-bind path is a function of this binding's own arguments -- it does not vary with a test of what
+         the previous binding left on ``route`` (constant where every bound route carries a value), and the application's
+         value can be chosen at all when ``route`` is a bound route;
+  R11.f  what binding declares, serving offers: every attribute of the bound route from which BoundRoute.__init__ computes
+         the names it declares as provided to the bind-time dependency checks (make_middleware_chain's preprovided,
+         check_render_error's resources) is offered at request time -- produced by match_path (path parameters) or merged
+         into the injectables execute / execute_error hand to inject -- and the two request-time entry points merge the
+         same stored mappings: a bound route is self-contained, it does not rely on the dispatching application to
+         repeat what it was bound with (resources on a Route, an application embedded under one without its resources).
 Declined: behavioural equality of responses before/after (needs running); state inside third-party objects.
 
 Values are judged where they flow (``effects.Flow``: reaching definitions, path conditions), not by the name of the local
@@ -938,6 +948,94 @@ def check_rebinding_composes(rep, repo, route, bi):
         rep.ok('R11.e', key, 'self.%s is built on %s.%s, the value of the route being re-bound' % (attr, rp, attr), route, from_route[0][1])
 
 
+def check_rebinding_choice(rep, repo, route, bi):
+    """R11.e, for the accumulated attributes that are *chosen* (the binding application's value or the one the route being
+    bound carries -- slash mode, error renderer) rather than combined: the constructor serves the first bind (``route`` is an
+    unbound Route) and every re-bind (``route`` is a BoundRoute, which this very constructor filled in).  On the re-bind
+    path the choice is a function of this binding's own arguments (the bind keywords, the application): it does not vary
+    with what the previous binding left on the route -- a test of ``route.X`` is a test of the earlier binding's outcome,
+    and where every bound route carries the value it is constant -- and the application's value can be chosen at all
+    (tests that tell a bound route from an unbound one are read as 'bound')."""
+    import re as _re
+    from .c10 import Prop, Flags, Unknown, _class_sets_attr
+    fl = Flow(bi)
+    ps = bi.params()
+    rp, ap = ps[1], ps[2]
+    ctx = _ReadCtx(bi, fl, {rp: {'route'}, ap: {'app'}})
+    pr = Prop(fl, Flags(fl, bi))
+    mentions_route = _re.compile(r'(?<![\w.])%s(?![\w])' % _re.escape(rp))
+
+    def side(lf):
+        v = lf.value
+        if lf.opaque:
+            return None
+        if isinstance(v, ast.Attribute):
+            ks = _owner_kinds(v.value, ctx)
+        elif isinstance(v, ast.Call) and call_name(v) == 'getattr' and len(v.args) in (2, 3):
+            ks = _owner_kinds(v.args[0], ctx)
+        else:
+            return None
+        return 'app' if ks == {'app'} else 'route' if ks == {'route'} else None
+
+    def on_rebind(atom):
+        """value of a test that tells the two kinds of ``route`` apart, when ``route`` is a bound route; None: not such a test"""
+        m = _re.match(r"^hasattr\(%s, '(\w+)'\)$" % _re.escape(rp), atom)
+        if m:
+            return _class_sets_attr(repo, bi.cls, m.group(1))
+        m = _re.match(r"^isinstance\(%s, (\w+)\)$" % _re.escape(rp), atom)
+        if m and bi.cls is not None:
+            kind, _, obj = repo.resolve(bi.mod, m.group(1))
+            if kind == 'class' and (obj is bi.cls or obj in repo.mro(bi.cls)):
+                return True
+        return None
+
+    for attr in ACCUMULATED_ATTRS:
+        slot = 'self.%s' % attr
+        if not fl.defs.get(slot):
+            continue
+        lv = fl.leaves(ast.parse(slot, mode='eval').body, 'exit')
+        sides = [side(l) for l in lv]
+        if not lv or None in sides or 'app' not in sides or 'route' not in sides:
+            continue            # not a choice between the two (combined attributes: judged above)
+        try:
+            guards = [('&', pr.conds(l.conds)) for l in lv]
+            atoms = sorted(set().union(*[pr.atoms(g) for g in guards]))
+            fixed = dict((a, on_rebind(a)) for a in atoms)
+            fixed = dict((a, v) for a, v in fixed.items() if v is not None)
+            state = [a for a in atoms if a not in fixed and not a.startswith('keyword:') and mentions_route.search(a)]
+            own = [a for a in atoms if a not in fixed and a not in state]
+            if len(atoms) > 12:
+                raise Unknown('too many atoms')
+            chosen = {}         # values of the binding's own atoms -> {side: a witness row}
+            free = own + state
+            for i in range(1 << len(free)):
+                env = dict(fixed)
+                env.update((n, bool(i >> j & 1)) for j, n in enumerate(free))
+                for g, s in zip(guards, sides):
+                    if pr.ev(g, env):
+                        chosen.setdefault(tuple(env[a] for a in own), {}).setdefault(s, env)
+        except Unknown as e:
+            raise AnalysisError('BoundRoute.__init__: conditions of the self.%s selection not understood (%s)' % (attr, e))
+        key = fkey(bi, 'self.%s: the choice on a re-bind is this binding\'s' % attr)
+        split = [c for c in chosen.values() if len(c) > 1]
+        node = next((l.stmt for l in lv if isinstance(l.stmt, ast.AST)), bi.node)
+        if split:
+            dep = [a for a in state if split[0]['app'][a] != split[0]['route'][a]] or state
+            rep.fail('R11.e', key, 'whether a re-bound route gets the binding application\'s %s or keeps its own depends on %s, a test of what the '
+                     'previous binding left on the route: right for the first bind of an unbound Route, but every bound route carries a value '
+                     'there, so when an application is embedded the test always comes out the same way and its routes never pick up the '
+                     'embedding application\'s %s -- the copy made by embedding does not belong to the application it was bound into' %
+                     (attr, ' / '.join(dep[:2]), attr), route, node)
+            continue
+        if not any('app' in c for c in chosen.values()):
+            rep.fail('R11.e', key, 'on a re-bind (%s) the binding application\'s %s is never chosen, whatever the bind keywords say: embedded '
+                     'routes keep the %s of the application they were first bound into' %
+                     (', '.join('%s is %s' % kv for kv in sorted(fixed.items())) or 'route is a bound route', attr, attr), route, node)
+            continue
+        rep.ok('R11.e', key, 'on a re-bind the choice between %s.%s and the application\'s is decided by %s alone' %
+               (rp, attr, ', '.join(own) or 'the binding'), route, node)
+
+
 def check_rebinding_sites(rep, repo, app, route):
     """R11.e at the two places that start a re-binding: BoundRoute.bind hands the bound route itself to the constructor, and
     SubApplication.bind_all calls ``bind`` on the embedded application's bound routes -- neither goes back to the unbound
@@ -972,6 +1070,136 @@ def check_rebinding_sites(rep, repo, app, route):
                   'application\'s own prefixes / resources / middlewares are dropped' % txt, app, c)
 
 
+def _self_attrs_behind(fl, fi, expr, repo=None):
+    """{attr: node}: the attributes of ``self`` that can influence ``expr`` (through named temporaries / containers built
+    in this function; the attributes themselves are not looked into)."""
+    me = fi.params()[0] if fi.params() else 'self'
+    stop = set(k for k in fl.defs if k.startswith(me + '.'))
+    exprs = [expr]
+    followed = set()
+    for n in ast.walk(expr):
+        if isinstance(n, ast.Name) and isinstance(n.ctx, ast.Load) and n.id in fl.defs and n.id != me:
+            ex, seen = contributions(fl, fi, n.id, stop)
+            exprs.extend(ex)
+            followed |= seen
+    out = {}
+    # a local that is also what the attribute was set to (``self.resources = resources``) stands for the attribute
+    for k in sorted(stop):
+        for d in fl.defs[k]:
+            if d.kind == 'assign' and d.idx is None and isinstance(d.value, ast.Name) and d.value.id in followed:
+                out.setdefault(k[len(me) + 1:], d.value)
+
+    def visit(n):
+        # what an analysed function computes from its arguments is a new value, not the attribute handed to it
+        if isinstance(n, ast.Call) and repo is not None and effects.callee_of(repo, fi, n) is not None:
+            return
+        if isinstance(n, ast.Attribute) and isinstance(n.ctx, ast.Load) and isinstance(n.value, ast.Name) and n.value.id == me:
+            out.setdefault(n.attr, n)
+        for c in ast.iter_child_nodes(n):
+            visit(c)
+    for e in exprs:
+        visit(e)
+    return out
+
+
+def _offered_sources(fi):
+    """-> (attrs {attr: node}, opaque [text], inject call): the attributes of ``self`` merged as whole mappings into the
+    injectables the request-time method ``fi`` hands to ``inject`` (entries under a fixed key are not merges), and the
+    merged layers whose content is not known here (anything but ``self.X``, a parameter, a display)."""
+    from .. import layers
+    from ..astutil import argn
+    inj = [c for c in walk_body(fi.node) if isinstance(c, ast.Call) and call_name(c) == 'inject']
+    if len(inj) != 1:
+        raise AnalysisError('%s: expected one inject call' % fi.qualname)
+    arg = argn(inj[0], 'injectables', 1)
+    if arg is None:
+        raise AnalysisError('%s: the mapping handed to inject could not be identified' % fi.qualname)
+    me = fi.params()[0]
+    lay = layers.layers_of_value(fi.node, arg)
+    a = fi.node.args
+    own = set(fi.params()) | set(x.arg for x in (a.vararg, a.kwarg) if x is not None)
+    attrs, opaque = {}, []
+
+    def flat(l, depth=0):
+        # dict({...}, **more) / {**a, 'k': v}: a display merged as a whole is its own layers
+        if l.kind == 'source' and depth < 4 and (isinstance(l.node, ast.Dict) or (isinstance(l.node, ast.Call) and call_name(l.node) == 'dict')):
+            return [x for s in layers.layers_of_expr(l.node) for x in flat(s, depth + 1)]
+        return [l]
+    for l in [x for l0 in lay for x in flat(l0)]:
+        if l.kind != 'source':
+            continue
+        found = False
+        for n in ast.walk(l.node):
+            if isinstance(n, ast.Attribute) and isinstance(n.value, ast.Name) and n.value.id == me:
+                attrs.setdefault(n.attr, n)
+                found = True
+        if not found and not (isinstance(l.node, ast.Name) and l.node.id in own):
+            opaque.append(l.text)
+    return attrs, opaque, inj[0]
+
+
+def check_declared_sources_offered(rep, repo, route, bi):
+    """R11.f: what binding declares, serving offers.  The bind-time dependency checks of BoundRoute.__init__ are told which
+    names will be available (the ``preprovided`` argument of make_middleware_chain, the ``resources`` argument of
+    check_render_error); every attribute of the bound route those declarations are computed from is offered again when a
+    request is served: either ``match_path`` produces the values from it (path parameters) or the request-time method merges
+    it into the injectables it hands to ``inject``.  ``execute`` and ``execute_error`` merge the same stored mappings.  A
+    bound route is self-contained: it does not rely on the application that happens to dispatch to repeat what it was
+    bound with (a Route with resources of its own, an application embedded in one that does not have its resources)."""
+    from ..astutil import argn
+    fl = Flow(bi)
+    ci = bi.cls
+    methods = dict((q, route.func('BoundRoute.%s' % q)) for q in ('execute', 'execute_error', 'match_path'))
+    mp = methods['match_path']
+    me = mp.params()[0]
+    by_matching = set(n.attr for n in walk_body(mp.node) if isinstance(n, ast.Attribute) and isinstance(n.ctx, ast.Load) and
+                      isinstance(n.value, ast.Name) and n.value.id == me)
+    calls = [c for c in walk_body(bi.node) if isinstance(c, ast.Call)]
+    declared = {}
+    for fname, pname, pos, q in (('make_middleware_chain', 'preprovided', 3, 'execute'), ('check_render_error', 'resources', 1, 'execute_error')):
+        for c in calls:
+            if call_name(c) != fname:
+                continue
+            arg = argn(c, pname, pos)
+            if arg is None:
+                raise AnalysisError('BoundRoute.__init__: the names declared to %s could not be identified' % fname)
+            declared.setdefault(q, {}).update(_self_attrs_behind(fl, bi, arg, repo))
+    if 'execute' not in declared:
+        raise AnalysisError('BoundRoute.__init__: no make_middleware_chain(.., preprovided) call found')
+    offered = {}
+    for q in ('execute', 'execute_error'):
+        offered[q] = _offered_sources(methods[q])
+    for q in ('execute', 'execute_error'):
+        attrs, opaque, inj = offered[q]
+        for attr, node in sorted(declared.get(q, {}).items()):
+            if attr in by_matching:
+                continue        # path parameters: produced by match_path from the same attribute
+            key = fkey(methods[q], 'offers self.%s' % attr)
+            if attr not in attrs and opaque:
+                raise AnalysisError('%s: the injectables are merged from %s, which could not be followed' % (methods[q].qualname, opaque[0]))
+            rep.check('R11.f', key, attr in attrs, 'self.%s, declared as provided when the route is bound, is merged into the injectables of %s' %
+                      (attr, q) if attr in attrs else
+                      'BoundRoute.__init__ declares the names of self.%s as provided (%s), so binding succeeds, but %s does not merge self.%s into '
+                      'the injectables it hands to inject: a route bound with resources of its own, or an application embedded in one that does '
+                      'not repeat its resources, fails when the request is served -- the bound route relies on the dispatching application '
+                      'instead of what it was bound with' % (attr, short(node, 40), methods[q].qualname, attr), route, inj)
+    # the two request-time entry points offer the same stored mappings
+    a1, o1, i1 = offered['execute']
+    a2, o2, i2 = offered['execute_error']
+    for attr in sorted(set(a1) ^ set(a2)):
+        has, lacks = ('execute', 'execute_error') if attr in a1 else ('execute_error', 'execute')
+        if attr in declared.get(lacks, {}):
+            continue            # already judged above
+        if offered[lacks][1]:
+            raise AnalysisError('%s: the injectables are merged from %s, which could not be followed' % (methods[lacks].qualname, offered[lacks][1][0]))
+        rep.fail('R11.f', fkey(methods[lacks], 'offers self.%s like %s' % (attr, has)),
+                 '%s merges self.%s into its injectables and %s does not: the endpoint and the error renderer of one bound route see '
+                 'different resources' % (has, attr, lacks), route, offered[lacks][2])
+    if not (set(a1) ^ set(a2)):
+        rep.ok('R11.f', fkey(methods['execute'], 'same stored sources as execute_error'),
+               'execute and execute_error merge the same attributes of the bound route (%s)' % ', '.join(sorted(a1)), route, i1)
+
+
 def run(rep):
     from .c10 import _safe
     repo = rep.repo
@@ -988,6 +1216,7 @@ def run(rep):
     rep.rule('R11.c', 'running index in add()')
     rep.rule('R11.d', 'every writer of module-level state is in the frozen inventory')
     rep.rule('R11.e', 'provenance: accumulated attributes of a bound route are built on those of the route being re-bound')
+    rep.rule('R11.f', 'sibling agreement: every source BoundRoute.__init__ declares as provided is offered by execute / execute_error')
 
     # ---- R11.a -----------------------------------------------------------
     def r11a():
@@ -1668,6 +1897,15 @@ def run(rep):
 
     def rebinding_sites():
         check_rebinding_sites(rep, repo, app, route)
+    def rebinding_choice():
+        check_rebinding_choice(rep, repo, route, route.func('BoundRoute.__init__'))
     rep_guard(rebinding_composes)
     rep_guard(rebinding_sites)
+    rep_guard(rebinding_choice)
     rep_guard(rep.floor, 'R11.e', 8)
+
+    # ---- R11.f -----------------------------------------------------------
+    def declared_sources_offered():
+        check_declared_sources_offered(rep, repo, route, route.func('BoundRoute.__init__'))
+    rep_guard(declared_sources_offered)
+    rep_guard(rep.floor, 'R11.f', 2)
